@@ -24,6 +24,13 @@ def result(xn: ExecNode) -> int:
     return xn.priority
 
 
+def ctl_swallow(x: int) -> int:
+    try:
+        return 1 // x
+    except Exception:
+        return 0
+
+
 _ctl_state: List[int] = []
 
 
